@@ -12,10 +12,14 @@ case     : `stack=tlcp|dtlcp kind=full|script|hist|shist suite=<hex> pol=<Policy
            `K.e=0|1 K.msg=0|1 K.n=<certs> K.parse=0|1 K.c0=<okClient okClientOrServer okAny keyKind|-> K.c1=..
             (keyKind: s = SM2, p = elliptic curve other than SM2, r = RSA, x = anything else)
             K.kx=0|1 K.cv=none|<byLeafKey overTranscript> K.fin=0|1 [K.sig=0|1]`
+           `K.leaf=<id>|-` (which certificate heads the list this client presented)
            and for histories `now0= now1=` (the certificates of connection 1 judged under the
-           configuration of connection 2) and `2.offer=0|1` (the second ClientHello carries a
-           session id)
-observed : per connection `K.srv=done|err K.resumed=0|1|- K.peers=<n>|- K.chains=0|1|- K.req=0|1|-`
+           configuration of connection 2), `2.offer=0|1` (the second ClientHello carries a
+           session id) and `2.mech=0|1` (the session's suite is still offered by the second
+           ClientHello and supported by the second server: 0 = the resumption must be declined
+           whatever the policy says; scenario tokens `suite2= decl=cli|srv cli2=`)
+observed : per connection `K.srv=done|err K.resumed=0|1|- K.peers=<n>|- K.chains=0|1|-
+           K.pleaf=<id>|- K.vleaf=<id>|- (PeerCertificates[0] / VerifiedChains[0][0]) K.req=0|1|-`
            and, not constrained by the property (copied; differences are notes):
            `K.cls=<error class> K.alert=<n> K.cli=ok|err`
 -/
@@ -54,6 +58,8 @@ def parseCV (s : String) : Option (Option CertVerify) :=
 structure ConnCase where
   b : Behaviour
   sig : Option Bool
+  /-- identifier of the certificate that heads the list this client presented (`-`: nothing) -/
+  leaf : String := "-"
 
 def parseConn (ct : List String) (k : String) : Option ConnCase := do
   let e ← kv ct s!"{k}.e"
@@ -68,7 +74,7 @@ def parseConn (ct : List String) (k : String) : Option ConnCase := do
   let sig := (kv ct s!"{k}.sig").map (· == "1")
   pure { b := { ecdhe := e == "1", certMsg := msg == "1", certs := mkCerts n (parseCert c0) (parseCert c1),
                 parseOK := parse == "1", kxOK := kx == "1", cv := cv, finishedOK := fin == "1" },
-         sig := sig }
+         sig := sig, leaf := (kv ct s!"{k}.leaf").getD "-" }
 
 structure ConnObs where
   o : Observed
@@ -84,13 +90,18 @@ def parseObs (ot : List String) (k : String) : Option ConnObs := do
   let peers ← kv ot s!"{k}.peers"
   let chains ← kv ot s!"{k}.chains"
   let req ← kv ot s!"{k}.req"
+  let leafTok (name : String) : Option String :=
+    match kv ot s!"{k}.{name}" with
+    | some v => if v == "-" then none else some v
+    | none => none
   let cls := (kv ot s!"{k}.cls").getD "-"
   let alert := (kv ot s!"{k}.alert").getD "-"
   let cli := (kv ot s!"{k}.cli").getD "-"
   -- a CertificateRequest can only be judged when the server sent a full-handshake flight
   let reqSeen : Option Bool := if req == "-" then none else some (req == "1")
   pure { o := { completed := srv == "done", resumed := resumed == "1", peerCerts := peers.toNat?.getD 0,
-                chains := chains.toNat?.getD 0, certReq := reqSeen },
+                chains := chains.toNat?.getD 0, certReq := reqSeen,
+                peerLeaf := leafTok "pleaf", chainLeaf := leafTok "vleaf" },
          req := req, cls := cls, alert := alert, cli := cli, srv := srv }
 
 def b01 (b : Bool) : String := if b then "1" else "0"
@@ -101,11 +112,25 @@ def tablesFor (stack : String) : Option Tables :=
 /-- the tokens the property does not constrain are copied from the observation -/
 def copied (k : String) (ob : ConnObs) : String := s!"{k}.cls={ob.cls} {k}.alert={ob.alert} {k}.cli={ob.cli}"
 
-def showFull (k : String) (r : Result) (ob : ConnObs) : String :=
+/-- the identifier of the certificate an `Owner` stands for: `own` heads the list this connection's
+client presented, `sess` the list of the client that created the session -/
+def ownerLeaf (own sess : String) : Owner → String
+  | .nobody => "-"
+  | .thisClient => own
+  | .session => sess
+
+/-- a connection's report in the observation syntax -/
+def showReport (k : String) (r : Report) (own sess : String) (ob : ConnObs) : String :=
+  let req := match r.certReq with
+    | some q => b01 q
+    | none => "-"
   if r.completed then
-    s!"{k}.srv=done {k}.resumed=0 {k}.peers={r.peerCerts} {k}.chains={b01 r.chains} {k}.req={b01 r.certReq} {copied k ob}"
+    s!"{k}.srv=done {k}.resumed={b01 r.resumed} {k}.peers={r.peers} {k}.chains={b01 r.chains} {k}.pleaf={ownerLeaf own sess r.peerOwner} {k}.vleaf={ownerLeaf own sess r.chainOwner} {k}.req={req} {copied k ob}"
   else
-    s!"{k}.srv=err {k}.resumed=- {k}.peers=- {k}.chains=- {k}.req={b01 r.certReq} {copied k ob}"
+    s!"{k}.srv=err {k}.resumed=- {k}.peers=- {k}.chains=- {k}.pleaf=- {k}.vleaf=- {k}.req={req} {copied k ob}"
+
+def showFull (k : String) (r : Result) (own : String) (ob : ConnObs) : String :=
+  showReport k (reportFull r) own "-" ob
 
 /-- note when the class of the server's error is not the stage the model stops at -/
 def stageNote (k : String) (stage : Stage) (ob : ConnObs) : String :=
@@ -127,21 +152,19 @@ def orElse (a b : Option (String × String)) : Option (String × String) :=
 
 /-- what the model predicts for the history (model string, notes); needs the tables -/
 def modelOf (t : Tables) (p1 : Policy) (c1 : ConnCase) (ob1 : ConnObs)
-    (second : Option (Policy × ConnCase × ConnObs)) (now0 now1 : Option Cert) (offer : Bool) : String × String :=
+    (second : Option (Policy × ConnCase × ConnObs)) (now0 now1 : Option Cert) (offer mech : Bool) : String × String :=
   let r1 := full t p1 c1.b
   let noSuite := ob1.cls == "suite"
-  let m1 := if noSuite then s!"1.srv=err 1.resumed=- 1.peers=- 1.chains=- 1.req=- {copied "1" ob1}" else showFull "1" r1 ob1
+  let m1 := if noSuite then s!"1.srv=err 1.resumed=- 1.peers=- 1.chains=- 1.pleaf=- 1.vleaf=- 1.req=- {copied "1" ob1}" else showFull "1" r1 c1.leaf ob1
   match second with
   | none => (m1, stageNote "1" r1.stage ob1)
   | some (p2, c2, ob2) =>
     let recorded := mkCerts r1.recorded now0 now1
-    -- the cache answers iff createSessionState ran in the first handshake (completed or not)
-    let (m2, stage2) : String × Stage :=
-      match history t p1 p2 c1.b recorded (offer && !noSuite) true c2.b.finishedOK with
-      | .notResumed => let r2 := full t p2 c2.b; (showFull "2" r2 ob2, r2.stage)
-      | .resumedDone n ch => (s!"2.srv=done 2.resumed=1 2.peers={n} 2.chains={b01 ch} 2.req=- {copied "2" ob2}", .done)
-      | .resumedFailed s => (s!"2.srv=err 2.resumed=- 2.peers=- 2.chains=- 2.req=- {copied "2" ob2}", s)
-    (m1 ++ " " ++ m2, stageNote "1" r1.stage ob1 ++ stageNote "2" stage2 ob2)
+    -- the cache answers iff createSessionState ran in the first handshake (completed or not); a
+    -- declined resumption (cache miss, policy gate, suite no longer offered / supported) is
+    -- followed by a full handshake of the second client on a connection that is still fresh
+    let r2 := Gotlcp.Model.ServerAuthn.second t p1 p2 c1.b recorded (offer && !noSuite) mech c2.b
+    (m1 ++ " " ++ showReport "2" r2 c2.leaf c1.leaf ob2, stageNote "1" r1.stage ob1 ++ stageNote "2" r2.stage ob2)
 
 def judge (c o : String) : Option Verdict := do
   let ct := tokens c
@@ -158,7 +181,9 @@ def judge (c o : String) : Option Verdict := do
   let ob1 ← parseObs ot "1"
   -- no mutual cipher suite: the handshake never reaches doFullHandshake (outside the model)
   let noSuite := ob1.cls == "suite"
-  let s1 := orElse (sigCheck c1) (if noSuite then none else judgeFull p1 c1.b ob1.o)
+  -- what a connection's client presented (`none`: nothing)
+  let presented (c : ConnCase) : Option String := if c.leaf == "-" then none else some c.leaf
+  let s1 := orElse (sigCheck c1) (if noSuite then none else orElse (judgeFull p1 c1.b ob1.o) (judgeIdentity (presented c1) ob1.o))
   let now0 := (kv ct "now0").bind parseCert
   let now1 := (kv ct "now1").bind parseCert
   -- second connection of a history
@@ -181,18 +206,21 @@ def judge (c o : String) : Option Verdict := do
             -- the clause of the property that is broken, when there is one; else the plain fact
             orElse (judgeResumed p2 orig ob2.o)
               (some ("resumed-unfinished", "a session was resumed whose handshake never completed"))
-          else judgeResumed p2 orig ob2.o
-        else orElse (sigCheck c2) (judgeFull p2 c2.b ob2.o)
+          -- a resumed connection carries the certificates of the client that created the session
+          else orElse (judgeResumed p2 orig ob2.o) (judgeIdentity (presented c1) ob2.o)
+        -- not resumed (never offered, unknown, or DECLINED): only what THIS client presented counts
+        else orElse (sigCheck c2) (orElse (judgeFull p2 c2.b ob2.o) (judgeIdentity (presented c2) ob2.o))
       orElse s1 s2
   -- a real client only ever offers the session of a completed handshake; a scripted one always does
   let trivial := if kind == "hist" then !ob1.o.completed else noSuite
   let offer := (kv ct "2.offer").getD "1" == "1"
+  let mech := (kv ct "2.mech").getD "1" == "1"
   -- the MODEL prediction needs the tables regenerated from the source; when the source has
   -- moved outside the model's vocabulary there is no prediction (reported as a disagreement)
   match tablesFor stack with
   | none => pure { model := "model=unavailable(the extracted facts are outside the model's vocabulary)", spec := spec, trivial := trivial }
   | some t =>
-    let (m, note) := modelOf t p1 c1 ob1 second now0 now1 offer
+    let (m, note) := modelOf t p1 c1 ob1 second now0 now1 offer mech
     pure { model := m, spec := spec, note := note, trivial := trivial }
 
 end Gotlcp.Oracle.C07
